@@ -129,14 +129,16 @@ def _traced():
     return fam('msel') == 0 and fam('mwl') == 0
 
 
-def _find_e2e(k, ws, mid, lazy, msel, mwl):
+def _find_e2e(k, ws, mid, lazy, msel, mwl, empty_at=None):
     # maximum PDU length: large, small (many fragments), or such that the first match is exactly one full fragment
     maxlen = (16384, 40, len(dsutils.encode(pool(0), True, True)) + 6)[msel]
     sop = MWL if mwl else ROOT
     scp = sopclass.modality_work_list_scp if mwl else sopclass.qr_find_scp
     scu = sopclass.modality_work_list_scu if mwl else sopclass.qr_find_scu
     pend = [PEND[1] if w else PEND[0] for w in ws][:k]
-    matches = [(pool(i), statuses.Status(p, dm.CFindRSPMessage)) for i, p in enumerate(pend)]
+    # empty_at: that match is an EMPTY identifier (a Dataset without elements: zero octets on the wire)
+    matches = [(pydicom.Dataset() if i == empty_at else pool(i), statuses.Status(p, dm.CFindRSPMessage))
+               for i, p in enumerate(pend)]
     pae = ProviderAE(matches)
     ua = UserAssoc(None, pae, scp, 3, sop, maxlen, lazy)
     got = []
@@ -150,13 +152,37 @@ def _find_e2e(k, ws, mid, lazy, msel, mwl):
     if ok:
         for i in range(k):
             ds, st = got[i]
-            ok = ok and ds is not None and dsutils.encode(ds, True, True) == dsutils.encode(pool(i), True, True)
+            if i == empty_at:
+                ok = ok and (ds is None or len(ds) == 0)
+            else:
+                ok = ok and ds is not None and dsutils.encode(ds, True, True) == dsutils.encode(pool(i), True, True)
             ok = ok and int(st) == pend[i] and st.is_pending
         ds, st = got[k]
         ok = ok and ds is None and int(st) == 0 and st.is_success and not st.is_pending
     # the query reached the provider's handler unchanged, once
     ok = ok and len(pae.seen) == 1 and dsutils.encode(pae.seen[0], True, True) == dsutils.encode(query(), True, True)
     ok = ok and len(ua.script) == 0
+    return ok
+
+
+@cond(bounds='C-FIND user against C-FIND provider (query/retrieve and worklist variant, one instance each): k = 1..3 matches '
+             '(symbolic) one of which - at a symbolic position - is an EMPTY identifier (a data set without elements: zero '
+             'octets); pending codes FF00 / FF01 symbolic, eager / lagging provider thread symbolic: the user still receives one '
+             'response per match, with its status, in order (the empty one as an empty / absent data set), then the final one',
+      family={'mwl': [0, 1]}, timeout=300)
+def find_empty_identifier(k: int, at: int, w0: bool, w1: bool, w2: bool, lazy: bool) -> bool:
+    """
+    pre: 1 <= k <= 3 and 0 <= at < k
+    post: _
+    """
+    from vt import sim
+    k = pick(k, 1, 3)
+    at = pick(at, 0, 2)
+    ws = tuple(bool(pick(int(w), 0, 1)) for w in (w0, w1, w2))
+    lz = bool(pick(int(lazy), 0, 1))
+    with sim._no_tracing():
+        ok = _find_e2e(k, ws, 7, lz, 0, fam('mwl'), empty_at=at)
+    deep(ok and k == 3 and at == 1 and w1)
     return ok
 
 
